@@ -314,7 +314,7 @@ def OR(*variables):
     elif len(variables) == 1:
         return BUFFER(variables[0])
     x, v = OR(*variables[:-1]), BUFFER(variables[-1])
-    return x + v * (1 - x)
+    return x + (1 - x) * v
 
 
 def NOR(*variables):
